@@ -207,7 +207,11 @@ def _cols(s):
       col('lower') == PPFV(d, a),
       col('upper') == PPFV(d, _pupper(s)),
       col('precision') == ab(sub(PPFV(d, a), PPFV(d, z3.RealVal('0.5')))),
-      col('scale') == SCALEV(d))
+      col('scale') == SCALEV(d),
+      # probability of exceeding the threshold, on the scale of the (already
+      # rescaled) posterior: 1 - cdf(threshold)
+      col('probability') == z3.Function('arr_Sub_SA', R, Arr, Arr)(
+          z3.RealVal(1), CDFV(d, N(s.threshold))))
 
 
 for _rep in ('last', 'all'):
@@ -225,7 +229,8 @@ for _rep in ('last', 'all'):
           ('C06 summary algebra: estimate = posterior median, lower = '
            'quantile at (1 - level) / tails, upper = quantile at 1 (one '
            'tail) or 1 - (1 - level)/2 (two tails), precision = |lower - '
-           'median quantile|, scale = posterior scale', _cols),
+           'median quantile|, scale = posterior scale, probability = 1 - '
+           'cdf(threshold) of the rescaled posterior', _cols),
           ('the report holds the last row (report="last") or every row',
            lambda s, rep=_rep: unwrap(s.result).tail == (
                z3.IntVal(1) if rep == 'last' else unwrap(s.result).nrows)),
